@@ -533,15 +533,26 @@ theorem metricCalc_readsOnly (env : Env α S Q) (m : Metric α) : ReadsOnly (met
       (fun ws hws d d' h => by cases hws; exact (h w (by simp [Metric.fields])).1))
 
 omit [LE α] [DecidableLE α] in
-theorem subCalc_readsOnly (env : Env α S Q) (subs : List (Metric α)) :
-    ReadsOnly (subCalc env subs) (subs.flatMap Metric.fields) := by
+theorem subCalc1_readsOnly (env : Env α S Q) (x : SubAgg α) : ReadsOnly (subCalc1 env x) x.fields := by
+  cases x with
+  | metric m => exact readsOnly_embed _ _ _ _ _ (readsOnly_mapVal _ _ _ (metricCalc_readsOnly env m))
+  | card f =>
+    exact readsOnly_embed _ _ _ _ _ (readsOnly_mapVal _ _ _
+      (readsOnly_sketch _ _ _ _ (fun d d' h => (h f (by simp [SubAgg.fields])).2.1)))
+  | quant f =>
+    exact readsOnly_embed _ _ _ _ _ (readsOnly_mapVal _ _ _
+      (readsOnly_sketch _ _ _ _ (fun d d' h => (h f (by simp [SubAgg.fields])).1)))
+
+omit [LE α] [DecidableLE α] in
+theorem subCalc_readsOnly (env : Env α S Q) (subs : List (SubAgg α)) :
+    ReadsOnly (subCalc env subs) (subs.flatMap SubAgg.fields) := by
   apply readsOnly_all
   intro c hc
   obtain ⟨m, hm, rfl⟩ := List.mem_map.mp hc
-  apply readsOnly_mono _ (metricCalc_readsOnly env m)
+  apply readsOnly_mono _ (subCalc1_readsOnly env m)
   intro f hf
   rcases List.mem_cons.mp hm with rfl | hm
-  · simp [Metric.fields] at hf
+  · simp [SubAgg.fields, Metric.fields] at hf
   · exact List.mem_flatMap.mpr ⟨m, hm, hf⟩
 
 theorem aggCalc_readsOnly (env : Env α S Q) (a : Agg α) : ReadsOnly (aggCalc env a) a.reads := by
